@@ -305,25 +305,10 @@ func hashEqualityRule(P *Program, R *Report) {
 	}
 	if fn := mustFunc(P, R, rule, "revocation.checkHashAlg"); fn != nil {
 		// nil only for SHA2_256
-		ok := true
-		n := 0
-		for _, ret := range returnsOf(fn) {
-			if !isNilConst(retValue(ret, 0)) {
-				continue
-			}
-			n++
-			good := false
-			for _, a := range controllingConds(ret.Block()) {
-				a = normAtom(a)
-				if desc(a.V) == "(arg#0==18)" && a.Want == True {
-					good = true
-				}
-			}
-			if !good {
-				ok = false
-			}
-		}
-		R.decide(rule, "revocation.checkHashAlg:whitelist", "only SHA2-256 (code 0x12) is accepted", ok && n == 1, fmt.Sprintf("%d nil returns", n), P.Pos(fn.Pos()))
+		mp(P, R, rule, "revocation.checkHashAlg:whitelist", "only SHA2-256 (code 0x12) is accepted", fn, AcceptNilErr(0), &MustPass{Match: func(a Atom) bool {
+			g, ok := parseGuard(a, nil)
+			return ok && g.Kind == "int" && g.Rel == "==" && g.Subject == "arg#0" && g.BoundA.isConst() && g.BoundA.C == 18
+		}})
 	}
 }
 
